@@ -56,11 +56,14 @@ func conform(engine int, name string, mutate bool) {
 	var err error
 	route := nd.Choose("route", 2)
 	if route == 1 && hasDup(r) {
-		route = 0 // a tree with a repeated key cannot be written as DAG-CBOR by the encoder
+		route = 2 // a tree with a repeated key cannot be written as DAG-CBOR by the encoder: feed it the way a decoder would
 	}
 	if route == 0 {
 		// explicit assembler calls
 		nd.NoPanic("assemble ["+name+"]", func() { err = typed.Assign(nb, r) })
+	} else if route == 2 {
+		// keys and values assembled separately
+		nd.NoPanic("assemble by key and value ["+name+"]", func() { err = refschema.AssignKV(nb, r) })
 	} else {
 		// through DAG-CBOR bytes
 		var buf bytes.Buffer
